@@ -232,23 +232,29 @@ def check_whitespace(run: common.Run, src: str, seps: List[int], report) -> None
     got = tree2ir.parse(text)
     if got is None or norm(got) != norm(base):
         report("whitespace-or-comment-significant", {"src": src, "seps": seps, "rejoined": text}, f"{text!r} parsed differently from {src!r}")
-    # the converse: blanks INSIDE a string / bytes literal are significant. The same token sequence with the blank runs inside its literals changed must
-    # parse to a tree holding the changed literals (also right after the original text has been parsed in the same process)
+    # the converse: blanks INSIDE a string / bytes literal are significant. The same token sequence with one blank, then with two blanks, put inside each of
+    # its literals must parse to trees holding exactly those literals (the second right after the first, in the same process)
     import re as _re
 
-    changed = [(_re.sub(r"[ \t]+", lambda m: " " if len(m.group()) > 1 else "  ", tk) if tk[:1] in "'\"rRbB" and ("'" in tk or '"' in tk) else tk) for tk in toks]
-    if changed != toks:
-        run.tick()
-        run.event("blanks-inside-literals-changed")
-        text2 = " ".join(changed)
-        try:
-            tree2 = cel.env("I").compile(text2)
-            lits = [str(t) for t in tree2.scan_values(lambda v: getattr(v, "type", "") in ("STRING_LIT", "MLSTRING_LIT", "BYTES_LIT"))] if tree2 is not None else None
-        except Exception:
-            lits = None
-        want = [tk for tk in changed if tk[:1] in "'\"rRbB" and ("'" in tk or '"' in tk)]
-        if lits is not None and sorted(lits) != sorted(want):
-            report("blanks-inside-a-literal-not-preserved", {"src": src, "seps": seps, "changed": text2}, f"{text2!r}: literals in the tree {lits[:3]} but written {want[:3]}")
+    def with_blanks(tk: str, blanks: str) -> str:
+        m = _re.match(r"([rRbB]{0,2})(\"\"\"|'''|\"|')", tk)
+        return tk if not m else tk[: m.end()] + blanks + tk[m.end():]
+
+    if any(with_blanks(tk, " ") != tk for tk in toks):
+        for blanks in (" ", "  ", "\t "):
+            changed = [with_blanks(tk, blanks) for tk in toks]
+            text2 = " ".join(changed)
+            run.tick()
+            run.event("blanks-put-inside-literals")
+            try:
+                tree2 = cel.env("I").compile(text2)
+                lits = sorted(str(t) for t in tree2.scan_values(lambda v: getattr(v, "type", "") in ("STRING_LIT", "MLSTRING_LIT", "BYTES_LIT")))
+            except Exception:
+                continue
+            want = sorted(tk for tk, orig in zip(changed, toks) if tk != orig)
+            if lits != want:
+                report("blanks-inside-a-literal-not-preserved", {"src": src, "seps": seps, "changed": text2}, f"{text2!r}: literals in the tree {lits[:3]} but written {want[:3]}")
+                break
     run.sample({"rejoined": text[:100]}, bucket="ws")
 
 
